@@ -215,39 +215,6 @@ Proof.
     rewrite (Hund r) in H; [discriminate|]. unfold under. now rewrite E.
 Qed.
 
-(** ** change of an existing reference, in place *)
-Lemma change_ref_inst_fields : forall p x v r,
-  i_key (change_ref_inst p x v r) = i_key r /\ i_base (change_ref_inst p x v r) = i_base r
-  /\ i_args (change_ref_inst p x v r) = i_args r /\ i_xrefs (change_ref_inst p x v r) = i_xrefs r.
-Proof.
-  intros p x v r. unfold change_ref_inst. destruct (strip_prefix (i_base r) p); [|auto].
-  destruct (dmem _ _); simpl; auto.
-Qed.
-
-Lemma live_ok_change_ref : forall gl d l p x v,
-  live_ok gl d l -> live_ok gl (dupdate p (set_ref x v) d) (map (change_ref_inst p x v) l).
-Proof.
-  intros gl d l p x v Hok r' Hr'. apply in_map_iff in Hr' as [r [<- Hr]].
-  destruct (Hok r Hr) as [(its & cp & key & pbase & outer & f & Hk & Hp & Hf & Hb & Hi) [Hs Hc]].
-  destruct (change_ref_inst_fields p x v r) as (Fk & Fb & Fa & Fx).
-  split; [|split].
-  - exists its, cp, key, pbase, outer, f. rewrite Fk, Fb, Fa, Fx. split; [exact Hk|]. split; [|split; [|split]].
-    + destruct Hp as [Hp|(Hne & r0 & Hin0 & Hk0 & E3 & E4)]; [now left|right].
-      split; [exact Hne|]. exists (change_ref_inst p x v r0).
-      destruct (change_ref_inst_fields p x v r0) as (Fk0 & Fb0 & Fa0 & _).
-      rewrite Fk0, Fb0, Fa0. split; [now apply in_map|auto].
-    + rewrite params_at_dupdate_pres; [exact Hf|reflexivity].
-    + exact Hb.
-    + eapply item_ctx_frame; [exact Hi|]. rewrite dmem_dupdate. eapply item_ctx_mem; eauto.
-  - unfold change_ref_inst. destruct (strip_prefix (i_base r) p) as [cp'|] eqn:E.
-    + destruct (dmem cp' (i_snap r)) eqn:M; simpl.
-      * rewrite (subtree_dupdate_in _ _ _ _ _ E). now rewrite Hs.
-      * rewrite (subtree_dupdate_in _ _ _ _ _ E). rewrite Hs. now apply dupdate_absent.
-    + rewrite (subtree_dupdate_out _ _ _ _ E). exact Hs.
-  - unfold change_ref_inst. destruct (strip_prefix (i_base r) p) as [cp'|] eqn:E; [|exact Hc].
-    destruct (dmem cp' (i_snap r)); [|exact Hc]. simpl. apply cache_ok_nil.
-Qed.
-
 (** ** a new instance *)
 Lemma find_inst_some : forall k l r, find_inst k l = Some r -> In r l /\ i_key r = k.
 Proof.
@@ -404,9 +371,7 @@ Proof.
   - (* OSetRef *)
     destruct (dlookup p (st_defs st)) as [n|] eqn:En; simpl; try exact HI.
     destruct (amem x (sn_cells n) || dmem (p ++ [x]) (st_defs st)); simpl; try exact HI.
-    destruct (amem x (sn_refs n)); simpl.
-    + apply live_ok_change_ref. apply live_ok_del. now apply live_ok_del.
-    + apply live_ok_edit_node; [exact HI|unfold dmem; now rewrite En|intros r H; rewrite H; apply orb_true_r|left; reflexivity].
+    apply live_ok_edit_node; [exact HI|unfold dmem; now rewrite En|intros r H; rewrite H; apply orb_true_r|left; reflexivity].
   - (* ODelRef *)
     destruct (dlookup p (st_defs st)) as [n|] eqn:En; simpl; try exact HI.
     destruct (amem x (sn_refs n)); simpl; try exact HI.
